@@ -647,7 +647,7 @@ func genC11(r *Rng, tier string) *World {
 				op.Input = v
 			}
 			if r.P(0.35) {
-				op.Opts = append(op.Opts, OptSpec{K: "fmt", Fmt: "stamp"})
+				op.Opts = append(op.Opts, OptSpec{K: "fmt", Fmt: "stamp", Key: Pick(r, []string{"", "", "legacy"})})
 			}
 			ops = append(ops, op)
 		}
